@@ -84,6 +84,9 @@ pub struct Case {
     pub path: Path,
     /// when set, execute only this sink plan (replay / shrinking); otherwise enumerate
     pub only: Option<SinkPlan>,
+    /// when set, execute only this plan in continuation mode
+    #[serde(default)]
+    pub cont_only: Option<SinkPlan>,
 }
 
 #[derive(Clone, Debug)]
@@ -138,6 +141,23 @@ impl Rec<'_> {
     }
 }
 
+thread_local! {
+    /// continuation mode: a container scenario goes on after an API call returned Err and always
+    /// finishes with into_inner (used by the clean-refusal / flush-error continuation oracle)
+    static CONT: std::cell::Cell<bool> = const { std::cell::Cell::new(false) };
+}
+
+fn cont() -> bool {
+    CONT.with(|c| c.get())
+}
+
+fn exec_cont(path: &Path, plan: &SinkPlan) -> Exec {
+    CONT.with(|c| c.set(true));
+    let e = exec(path, plan);
+    CONT.with(|c| c.set(false));
+    e
+}
+
 fn snap(s: &SimSink) -> (usize, usize) {
     (s.data.len(), s.faults_fired.len())
 }
@@ -149,6 +169,7 @@ fn run_container_ops<'a>(
     defs: &crate::gen::Defs,
     rec: &mut Rec,
 ) -> bool {
+    let mut all_ok = true;
     for op in ops {
         let before = snap(w.get_ref());
         let ok = match op {
@@ -189,10 +210,13 @@ fn run_container_ops<'a>(
             }
         };
         if !ok {
-            return false;
+            if !cont() {
+                return false;
+            }
+            all_ok = false;
         }
     }
-    true
+    all_ok
 }
 
 fn build_writer<'a>(
@@ -217,7 +241,7 @@ fn build_writer<'a>(
 fn finish_writer(w: Writer<'_, &mut SimSink>, finish: &Finish, apis: &mut Vec<Api>, all_ok: bool) {
     // after an error the writer is only dropped (must not panic; nothing else is required)
     let before = snap(w.get_ref());
-    if *finish == Finish::IntoInner && all_ok {
+    if (*finish == Finish::IntoInner && all_ok) || cont() {
         match w.into_inner() {
             Ok(s) => {
                 let after = snap(s);
@@ -356,7 +380,7 @@ fn exec(path: &Path, plan: &SinkPlan) -> Exec {
                                 rec.push("flush", r, true, before, after)
                             }
                         };
-                        if !ok {
+                        if !ok && !cont() {
                             break;
                         }
                     }
@@ -519,6 +543,138 @@ fn judge(path: &Path, reference: &Exec, e: &Exec, plan: &SinkPlan) -> Option<Fai
         }
     }
     None
+}
+
+/// Values a container scenario attempts to append, in order, one group per operation.
+fn attempted(path: &Path) -> Option<(apache_avro::Schema, Vec<Vec<apache_avro::types::Value>>)> {
+    match path {
+        Path::Container { schema, ops, .. } => {
+            let p = parse_rs(schema)?;
+            let groups = ops
+                .iter()
+                .map(|op| match op {
+                    COp::AppendValueRef(v) | COp::AppendValue(v) | COp::Unvalidated(v) => vec![to_avro(v, schema, &p.defs)],
+                    COp::ExtendFromSlice(vs) | COp::Extend(vs) => vs.iter().map(|v| to_avro(v, schema, &p.defs)).collect(),
+                    COp::Flush => vec![],
+                })
+                .collect();
+            Some((p.schema, groups))
+        }
+        Path::ContainerSer { type_id, ops, .. } => {
+            with_corpus!(type_id.as_str(), T => {
+                let conv = |v: &J| -> apache_avro::types::Value { serde_json::from_value::<T>(v.clone()).expect("corpus value").to_value() };
+                let groups = ops
+                    .iter()
+                    .map(|op| match op {
+                        SOp::AppendSer(v) => vec![conv(v)],
+                        SOp::ExtendSer(vs) => vs.iter().map(conv).collect(),
+                        SOp::Flush => vec![],
+                    })
+                    .collect();
+                Some((T::get_schema(), groups))
+            })
+        }
+        _ => None,
+    }
+}
+
+/// Is `l` obtainable from `a` by deleting only optional elements? (tiny inputs: plain recursion)
+fn embeds(a: &[(apache_avro::types::Value, bool)], l: &[apache_avro::types::Value]) -> bool {
+    match (a.split_first(), l.split_first()) {
+        (None, None) => true,
+        (None, Some(_)) => false,
+        (Some(((v, mandatory), rest)), _) => {
+            if let Some((x, lrest)) = l.split_first() {
+                if crate::gen::avro_eq(v, x) && embeds(rest, lrest) {
+                    return true;
+                }
+            }
+            !*mandatory && embeds(rest, l)
+        }
+    }
+}
+
+/// Continuation oracle (container writers). The plan injects one fault that leaves the sink's
+/// byte stream intact: a flush() error, or a write error on the first sink call of an API call
+/// (nothing of that call was accepted). The caller carries on with the rest of the scenario. If
+/// every later call, including the final into_inner, returns Ok, the sink must hold a well-formed
+/// file with the intended header whose values are the attempted ones in order: each at most once,
+/// every value whose operation returned Ok present.
+fn judge_continuation(path: &Path, reference: &Exec, e: &Exec, plan: &SinkPlan) -> Option<Failure> {
+    let kind = path.kind();
+    let pn = plan_name(plan);
+    if let Some(p) = &e.panic {
+        return Some(Failure::new("panic", format!("C13 panic path={kind}"), format!("panic when continuing after a reported error under plan {pn}: {p}")));
+    }
+    if e.faults.len() != 1 {
+        return None;
+    }
+    let failed = e.apis.iter().position(|a| !a.ok)?;
+    let clean = match e.faults[0] {
+        WriteFaultKind::FlushErr => true,
+        WriteFaultKind::Other => e.apis[failed].delta == 0,
+        _ => false,
+    };
+    if !clean || e.apis[failed + 1..].iter().any(|a| !a.ok) || e.apis.last().map(|a| (a.name, a.ok)) != Some(("into_inner", true)) {
+        return None;
+    }
+    let api = e.apis[failed].name;
+    let fail = |what: &str, detail: String| {
+        Some(Failure::new(
+            "corrupt-after-reported-error",
+            format!("C13 corrupt-after-reported-error path={kind} what={what} fault={:?}", e.faults[0]),
+            format!("call #{failed} {api} reported the sink's error (the sink's byte stream stayed intact: {:?}); every later call returned Ok, but {detail} (plan {pn})", e.faults[0]),
+        ))
+    };
+    let (schema, groups) = attempted(path)?;
+    let Some(layout) = refimpl::parse_file(&e.data) else {
+        return fail("malformed-file", format!("the {} bytes in the sink are not a well-formed container file", e.data.len()));
+    };
+    if layout.trailing != 0 || layout.blocks.iter().any(|b| !b.marker_ok) {
+        return fail("malformed-file", "the file has trailing bytes or a block with a wrong marker".to_string());
+    }
+    match (refimpl::parse_header(&e.data), refimpl::parse_header(&reference.data)) {
+        (Some(x), Some(y)) if x.canonical_header() == y.canonical_header() => {}
+        _ => return fail("wrong-header", "the header differs from the one a Vec sink receives".to_string()),
+    }
+    let mut got = vec![];
+    match apache_avro::Reader::builder(&e.data[..]).reader_schema(&schema).build() {
+        Err(err) => return fail("unreadable", format!("the file cannot be opened: {err}")),
+        Ok(rd) => {
+            for item in rd {
+                match item {
+                    Ok(v) => got.push(v),
+                    Err(err) => return fail("unreadable", format!("reading the file fails after {} value(s): {err}", got.len())),
+                }
+            }
+        }
+    }
+    let mut a = vec![];
+    for (i, g) in groups.iter().enumerate() {
+        let ok = e.apis.get(i).map(|x| x.ok).unwrap_or(false);
+        for v in g {
+            a.push((v.clone(), ok));
+        }
+    }
+    if !embeds(&a, &got) {
+        let mand = a.iter().filter(|x| x.1).count();
+        return fail(
+            "values",
+            format!("the file holds {} value(s) that are not the {} attempted ones in order with the {mand} acknowledged ones present (lost, duplicated or altered)", got.len(), a.len()),
+        );
+    }
+    None
+}
+
+fn continuation_plans(reference: &Exec) -> Vec<SinkPlan> {
+    let mut plans = vec![];
+    for j in 0..reference.write_calls.min(64) {
+        plans.push(SinkPlan { accept: Accept::All, fault: Some(WriteFault { kind: WriteFaultKind::Other, at: j }) });
+    }
+    for j in 0..reference.flush_calls.min(16) {
+        plans.push(SinkPlan { accept: Accept::All, fault: Some(WriteFault { kind: WriteFaultKind::FlushErr, at: j }) });
+    }
+    plans
 }
 
 fn plans_for(reference: &Exec, path: &Path) -> Vec<SinkPlan> {
@@ -715,7 +871,7 @@ impl Property for C13 {
             }
             _ => {}
         }
-        Some(Case { path, only: None })
+        Some(Case { path, only: None, cont_only: None })
     }
 
     fn execute(&self, case: &Case, ctx: &mut Ctx) -> Option<Failure> {
@@ -790,6 +946,29 @@ impl Property for C13 {
                 }
             }
         }
+        if first.is_none() && path.is_container() && case.only.is_none() || case.cont_only.is_some() {
+            let plans = match &case.cont_only {
+                Some(p) => vec![p.clone()],
+                None => continuation_plans(&reference),
+            };
+            for plan in &plans {
+                let e = exec_cont(path, plan);
+                ctx.eval();
+                ctx.steps(e.write_calls + e.flush_calls);
+                let verdict = judge_continuation(path, &reference, &e, plan);
+                let carried_on = e.faults.len() == 1 && e.apis.iter().any(|a| !a.ok) && e.apis.last().map(|a| a.ok && a.name == "into_inner").unwrap_or(false);
+                if carried_on {
+                    ctx.agg.count("probe.continued_after_reported_error_to_a_clean_finish");
+                    ctx.agg.state(format!("{kind}|cont|{:?}|{}", e.faults[0], if verdict.is_some() { "corrupt" } else { "well-formed" }));
+                }
+                ctx.ev(if verdict.is_some() { "cont-bad" } else { "cont-ok" });
+                if let Some(f) = verdict {
+                    if first.is_none() {
+                        first = Some((f, plan.clone()));
+                    }
+                }
+            }
+        }
         first.map(|(mut f, plan)| {
             f.detail = format!("{} [plan={}]", f.detail, serde_json::to_string(&plan).unwrap());
             f
@@ -799,25 +978,38 @@ impl Property for C13 {
     fn shrink(&self, case: &Case, failure: &Failure) -> Vec<Case> {
         let mut out = vec![];
         // 1. pin the failing plan
-        if case.only.is_none() {
+        if case.only.is_none() && case.cont_only.is_none() {
             if let Some(i) = failure.detail.rfind("[plan=") {
                 let s = &failure.detail[i + 6..failure.detail.len() - 1];
                 if let Ok(p) = serde_json::from_str::<SinkPlan>(s) {
-                    out.push(Case { path: case.path.clone(), only: Some(p) });
+                    if failure.class == "corrupt-after-reported-error" {
+                        out.push(Case { path: case.path.clone(), only: Some(SinkPlan::perfect()), cont_only: Some(p) });
+                    } else {
+                        out.push(Case { path: case.path.clone(), only: Some(p), cont_only: None });
+                    }
                 }
             }
             return out;
         }
+        if let Some(p) = &case.cont_only {
+            if let Some(f) = &p.fault {
+                if f.at > 0 {
+                    for at in [0, f.at / 2, f.at - 1] {
+                        out.push(Case { path: case.path.clone(), only: case.only.clone(), cont_only: Some(SinkPlan { accept: Accept::All, fault: Some(WriteFault { kind: f.kind, at }) }) });
+                    }
+                }
+            }
+        }
         // 2. simplify the plan
-        if let Some(p) = &case.only {
+        if let (Some(p), None) = (&case.only, &case.cont_only) {
             if p.fault.is_some() && p.accept != Accept::All {
-                out.push(Case { path: case.path.clone(), only: Some(SinkPlan { accept: Accept::All, fault: p.fault.clone() }) });
+                out.push(Case { path: case.path.clone(), only: Some(SinkPlan { accept: Accept::All, fault: p.fault.clone() }), cont_only: None });
             }
             if p.fault.is_some() {
-                out.push(Case { path: case.path.clone(), only: Some(SinkPlan { accept: p.accept.clone(), fault: None }) });
+                out.push(Case { path: case.path.clone(), only: Some(SinkPlan { accept: p.accept.clone(), fault: None }), cont_only: None });
             }
             if !matches!(p.accept, Accept::Const(1) | Accept::All) {
-                out.push(Case { path: case.path.clone(), only: Some(SinkPlan { accept: Accept::Const(1), fault: p.fault.clone() }) });
+                out.push(Case { path: case.path.clone(), only: Some(SinkPlan { accept: Accept::Const(1), fault: p.fault.clone() }), cont_only: None });
             }
             if let Some(f) = &p.fault {
                 if f.at > 0 {
@@ -825,13 +1017,14 @@ impl Property for C13 {
                         out.push(Case {
                             path: case.path.clone(),
                             only: Some(SinkPlan { accept: p.accept.clone(), fault: Some(WriteFault { kind: f.kind, at }) }),
+                            cont_only: None,
                         });
                     }
                 }
             }
         }
         // 3. drop operations / values
-        let mut push = |path: Path| out.push(Case { path, only: case.only.clone() });
+        let mut push = |path: Path| out.push(Case { path, only: case.only.clone(), cont_only: case.cont_only.clone() });
         match &case.path {
             Path::Datum { schema, values, validate } => {
                 for i in 0..values.len() {
